@@ -14,6 +14,9 @@ CLAIMED = {
     "C19": ("Enumeration of the box (size, completeness at the row-major rank, soundness, no duplicates), index_fn(nth i) = i and nearest-point clipping are Coq theorems for ALL dimension counts and integer bounds mins <= maxs, about definitions regenerated from spaces.py; create_range_space is run against the kernel-evaluated model on all boxes of dimension <= 2 (<= 3 thorough) with bounds in [-3,3] plus samples up to dimension 4, every vector of the box enlarged by 2.",
             "Coq 8.16.1 kernel; translator tools/translate/gen_spaces.py; jnp.ravel_multi_index(mode='clip') and itertools.product modelled (ravel_clip, cart) and validated by correspondence; int32 overflow out of scope.",
             "Coq proof over source-translated definitions + kernel-evaluated differential check", "6 C19"),
+    "C02": ("The code-shaped kernel (devices x batches x slots with the padded last batch and the positional carry tuple) is proved equal to the specification sweep max_a sum_e prb*(rew + gamma*V[nxt]) for EVERY layout, value vector and gamma; the extracted policy is proved to be the first maximiser; monotonicity, gamma-contraction and constant shift are proved for every well-formed MDP. The hand-written kernel model is tied to the code by bit-exact per-sweep correspondence on injected value vectors (exact-dyadic regime), evaluated in the Coq kernel.",
+            "Coq 8.16.1 kernel; hand-written model of _calculate_updated_* / _extract_policy_* (Model/Kernel.v) tied by correspondence; layout arithmetic translated from source (GenBatch); IEEE-754/XLA modelled by exact rationals on inputs where every float operation is exact.",
+            "Coq proof (kernel = Bellman backup for all layouts) + kernel-evaluated bit-exact differential check", "6 C02"),
 }
 
 man = {
